@@ -220,7 +220,8 @@ Proof.
   destruct (mapM (hash_res nonstr) m) as [m1| | |]; cbn [bind]; try discriminate.
   destruct pipe_rules as [rules| | |]; cbn [bind]; try discriminate.
   destruct (nameref_transform pipe_cs nonstr rules m1) as [m2| | |]; cbn [bind]; try discriminate.
-  destruct (sort_resources o m2) as [m3| | |]; cbn [bind]; try discriminate.
+  destruct (ignore_local m2) as [m2l| | |]; cbn [bind]; try discriminate.
+  destruct (sort_resources o m2l) as [m3| | |]; cbn [bind]; try discriminate.
   intros H. inv H. exists (map r_node m3). now rewrite map_map.
 Qed.
 
@@ -392,6 +393,27 @@ Proof.
   rewrite (rid_of_ident a b Hab). auto.
 Qed.
 
+Lemma distinct_ids_filter (f : resource -> bool) m : distinct_ids m -> distinct_ids (filter f m).
+Proof.
+  induction m as [|r t IH]; cbn; [auto|]. intros [H1 H2]. destruct (f r); cbn; [split; [|auto]|auto].
+  intros x Hx. apply filter_In in Hx as [Hx _]. auto.
+Qed.
+
+Lemma remove_loop_distinct ids kept : forall cur out,
+  remove_loop ids kept cur = Ok out -> distinct_ids cur -> distinct_ids out.
+Proof.
+  induction ids as [|id t IH]; intros cur out H Hd; cbn [remove_loop] in H; [inv H; exact Hd|].
+  destruct (existsb (resid_raw_eqb id) kept); [eauto|].
+  destruct (Nat.eqb _ _); [|discriminate]. eapply IH; [exact H|]. apply distinct_ids_filter. exact Hd.
+Qed.
+
+(* IgnoreLocal only removes resources *)
+Lemma ignore_local_distinct m m' : ignore_local m = Ok m' -> distinct_ids m -> distinct_ids m'.
+Proof.
+  unfold ignore_local. destruct (negb _); [discriminate|].
+  destruct (append_all pipe_cs [] _); try discriminate. apply remove_loop_distinct.
+Qed.
+
 Section Ids.
   Variable nonstr : string -> bool.
 
@@ -405,7 +427,8 @@ Section Ids.
     destruct (mapM (hash_res nonstr) m) as [m1| | |]; cbn [bind]; try discriminate.
     destruct pipe_rules as [rules| | |]; cbn [bind]; try discriminate.
     destruct (nameref_transform pipe_cs nonstr rules m1) as [m2| | |]; cbn [bind]; try discriminate.
-    destruct (sort_resources (PSortLegacy first last) m2) as [m3| | |] eqn:ES; cbn [bind]; try discriminate.
+    destruct (ignore_local m2) as [m2l| | |]; cbn [bind]; try discriminate.
+    destruct (sort_resources (PSortLegacy first last) m2l) as [m3| | |] eqn:ES; cbn [bind]; try discriminate.
     intros H. inv H. cbn [sort_resources] in ES. apply append_all_spec in ES as [_ Hd].
     apply distinct_ids_strip. apply Hd. exact I.
   Qed.
@@ -426,9 +449,11 @@ Section Ids.
       by (rewrite <- pipe_rules_eq; exact ER0).
     clear ER0.
     destruct (nameref_transform pipe_cs nonstr rules m1) as [m2| | |] eqn:EN; cbn [bind]; try (intros X; discriminate X).
-    assert (ES : sort_resources o m2 = Ok m2) by (destruct Ho as [->| ->]; reflexivity).
+    destruct (ignore_local m2) as [m2l| | |] eqn:EL; cbn [bind]; try (intros X; discriminate X).
+    assert (ES : sort_resources o m2l = Ok m2l) by (destruct Ho as [->| ->]; reflexivity).
     rewrite ES. cbn [bind]. intros H Hd. inv H.
-    apply distinct_ids_strip. eapply Forall2_same_identity_ids; [eapply gen_transform_identity; eauto|].
+    apply distinct_ids_strip. eapply ignore_local_distinct; [exact EL|].
+    eapply Forall2_same_identity_ids; [eapply gen_transform_identity; eauto|].
     apply (Hd m m1); [reflexivity|exact EH].
   Qed.
 End Ids.
@@ -548,9 +573,9 @@ End Wrap.
 Definition respell (d : pdirs) : pdirs :=
   match pd_common_labels d with
   | [] => d
-  | cl => mkPDirs (pd_ns d) (pd_prefix d) (pd_suffix d)
-                  (pd_labels d ++ [Labels.mkLD cl true false []]) []
-                  (pd_common_annos d) (pd_cmgens d) (pd_secgens d)
+  | cl => mkPDirsG (pd_ns d) (pd_prefix d) (pd_suffix d)
+                   (pd_labels d ++ [Labels.mkLD cl true false []]) []
+                   (pd_common_annos d) (pd_cmgens d) (pd_secgens d) (pd_genopts d)
   end.
 
 (* rewrite the layers selected by [which] (by directory name), anywhere in the tree *)
@@ -661,11 +686,11 @@ Section Respell.
     destruct (pd_common_labels d) as [|cl0 clt] eqn:E; unfold respell; rewrite E; [reflexivity|].
     unfold run_generators. generalize gen_generator_order. intros ks. revert m.
     induction ks as [|k t IH]; intros m; [reflexivity|].
-    cbn [run_generator_kinds pd_cmgens pd_secgens].
+    cbn [run_generator_kinds pd_cmgens pd_secgens pd_genopts].
     destruct (String.eqb k "ConfigMapGenerator").
-    - destruct (run_gens nonstr false (pd_cmgens d) m); cbn [bind]; auto.
+    - destruct (run_gens nonstr (pd_genopts d) false (pd_cmgens d) m); cbn [bind]; auto.
     - destruct (String.eqb k "SecretGenerator").
-      + destruct (run_gens nonstr true (pd_secgens d) m); cbn [bind]; auto.
+      + destruct (run_gens nonstr (pd_genopts d) true (pd_secgens d) m); cbn [bind]; auto.
       + cbn [bind]. auto.
   Qed.
 
@@ -673,7 +698,7 @@ Section Respell.
   Proof.
     destruct (pd_common_labels d) as [|cl0 clt] eqn:E; unfold respell; rewrite E; [reflexivity|].
     destruct ents; [|reflexivity]. unfold is_empty_kust, dirs_empty.
-    cbn [pd_ns pd_prefix pd_suffix pd_labels pd_common_labels pd_common_annos pd_cmgens pd_secgens].
+    cbn [pd_ns pd_prefix pd_suffix pd_labels pd_common_labels pd_common_annos pd_cmgens pd_secgens pd_genopts].
     rewrite E. destruct (pd_labels d); cbn [app]; rewrite ?andb_false_r; reflexivity.
   Qed.
 
